@@ -48,7 +48,9 @@ impl Cls {
             Cls::A => "ABCDEFGHIJKLMNOPQRSTUVWXYZ",
             Cls::C => "ABCDEFGHIJKLMNOPQRSTUVWXYZ0123456789",
             Cls::X => "ABCDEFGHIJKLMNOPQRSTUVWXYZabcdefghijklmnopqrstuvwxyz0123456789/-?:().,'+ ",
-            Cls::Z => "ABCDEFGHIJKLMNOPQRSTUVWXYZabcdefghijklmnopqrstuvwxyz0123456789/-?:().,'+ =!\"%&*<>;@#_",
+            Cls::Z => {
+                "ABCDEFGHIJKLMNOPQRSTUVWXYZabcdefghijklmnopqrstuvwxyz0123456789/-?:().,'+ =!\"%&*<>;@#_"
+            }
         }
     }
 }
@@ -72,35 +74,64 @@ pub enum Comp {
 pub enum G {
     Lit(&'static str),
     /// run of class characters; `free` = plain text component
-    Run { cls: Cls, min: usize, max: usize },
+    Run {
+        cls: Cls,
+        min: usize,
+        max: usize,
+    },
     /// unsigned integer written with min..max digits, exposed as a number
-    Uint { min: usize, max: usize },
+    Uint {
+        min: usize,
+        max: usize,
+    },
     /// closed code list (strict); `perm`: wider documented shape for the permissive reading
-    Code { strict: Vec<&'static str>, perm: Option<Box<G>> },
+    Code {
+        strict: Vec<&'static str>,
+        perm: Option<Box<G>>,
+    },
     Opt(Box<G>),
     Seq(Vec<G>),
     Alt(Vec<G>),
     Nl,
     /// `k*Nx`: min..max lines of 1..width chars
-    Lines { min: usize, max: usize, width: usize, cls: Cls, first_no_slash: bool },
+    Lines {
+        min: usize,
+        max: usize,
+        width: usize,
+        cls: Cls,
+        first_no_slash: bool,
+    },
     /// `4*(1!n/33x)` numbered lines
-    NumLines { min: usize, max: usize, width: usize },
+    NumLines {
+        min: usize,
+        max: usize,
+        width: usize,
+    },
     Date6,
     Time4,
     Sign,
     Offset4,
     Ccy,
     /// `Nd` amount: up to `max_len` characters including the comma
-    Amount { max_len: usize, with_ccy: bool, kind: AmtKind },
+    Amount {
+        max_len: usize,
+        with_ccy: bool,
+        kind: AmtKind,
+    },
     Bic,
     /// `/34x`-style component that the model may expose without the slash: "/" + run
-    SlashRun { min: usize, max: usize },
+    SlashRun {
+        min: usize,
+        max: usize,
+    },
     /// `[/1!a][/34x]` party identifier line (without the newline)
     PartyId,
     /// constraint wrapper: content must not start/end with '/' nor contain '//'
     NoSlashEdges(Box<G>),
     /// free text up to n chars of class z, may contain newlines (77T)
-    Blob { max: usize },
+    Blob {
+        max: usize,
+    },
     /// literal exposed as a flag (e.g. `N` in 37H)
     Flagged(&'static str),
     /// MMDD entry date of field 61
@@ -108,15 +139,21 @@ pub enum G {
     /// funds code of field 61: one letter
     FundsCode,
     /// reference of field 61: up to max x, no `//` inside, not starting with `/`
-    RefNoDslash { max: usize },
+    RefNoDslash {
+        max: usize,
+    },
     /// alternative that exists only in the permissive reading (never generated)
     PermOnly(Box<G>),
     /// two digits 01..99 (days of field 23)
     Days2,
     /// x-run of 1..max chars whose first char is a letter (one component)
-    AlphaStartRun { max: usize },
+    AlphaStartRun {
+        max: usize,
+    },
     /// `5n/5n` with index <= total (28D)
     IndexTotal,
+    /// a sequence that the model exposes as ONE text component (e.g. `1!a3!c` of field 61)
+    Join(Vec<G>),
 }
 
 #[derive(Clone, Copy, Debug, PartialEq, Eq)]
@@ -135,10 +172,18 @@ pub fn run(cls: Cls, min: usize, max: usize) -> G {
     G::Run { cls, min, max }
 }
 pub fn fix(cls: Cls, n: usize) -> G {
-    G::Run { cls, min: n, max: n }
+    G::Run {
+        cls,
+        min: n,
+        max: n,
+    }
 }
 pub fn upto(cls: Cls, n: usize) -> G {
-    G::Run { cls, min: 1, max: n }
+    G::Run {
+        cls,
+        min: 1,
+        max: n,
+    }
 }
 pub fn opt(g: G) -> G {
     G::Opt(Box::new(g))
@@ -150,16 +195,34 @@ pub fn alt(v: Vec<G>) -> G {
     G::Alt(v)
 }
 pub fn code(v: &[&'static str]) -> G {
-    G::Code { strict: v.to_vec(), perm: None }
+    G::Code {
+        strict: v.to_vec(),
+        perm: None,
+    }
 }
 pub fn code_or(v: &[&'static str], perm: G) -> G {
-    G::Code { strict: v.to_vec(), perm: Some(Box::new(perm)) }
+    G::Code {
+        strict: v.to_vec(),
+        perm: Some(Box::new(perm)),
+    }
 }
 pub fn lines(max: usize, width: usize) -> G {
-    G::Lines { min: 1, max, width, cls: Cls::X, first_no_slash: false }
+    G::Lines {
+        min: 1,
+        max,
+        width,
+        cls: Cls::X,
+        first_no_slash: false,
+    }
 }
 pub fn name_lines(max: usize, width: usize) -> G {
-    G::Lines { min: 1, max, width, cls: Cls::X, first_no_slash: true }
+    G::Lines {
+        min: 1,
+        max,
+        width,
+        cls: Cls::X,
+        first_no_slash: true,
+    }
 }
 
 #[derive(Clone, Copy, PartialEq, Eq, Debug)]
@@ -184,7 +247,10 @@ pub struct GenOut {
     pub spans: Vec<(usize, usize, String)>,
 }
 
-const CCY_COMMON: &[&str] = &["USD", "EUR", "GBP", "CHF", "JPY", "KWD", "BHD", "CLF", "KRW", "CAD", "AUD", "TND", "UYW", "XOF"];
+const CCY_COMMON: &[&str] = &[
+    "USD", "EUR", "GBP", "CHF", "JPY", "KWD", "BHD", "CLF", "KRW", "CAD", "AUD", "TND", "UYW",
+    "XOF",
+];
 
 pub fn gen_bic(src: &mut Src) -> String {
     let mut s = String::new();
@@ -248,7 +314,11 @@ pub fn gen_amount(src: &mut Src, max_len: usize, decimals: usize) -> String {
     let long = src.chance(1, 16);
     let max_int = max_len.saturating_sub(1 + nd).clamp(1, 14);
     // (the library formats with the currency's full precision, so that is what has to fit)
-    let max_int = if long { max_int } else { max_int.min(15usize.saturating_sub(decimals.max(nd)).max(1)) };
+    let max_int = if long {
+        max_int
+    } else {
+        max_int.min(15usize.saturating_sub(decimals.max(nd)).max(1))
+    };
     let nint = match src.below(6) {
         0 => 1,
         1 => max_int,
@@ -257,7 +327,11 @@ pub fn gen_amount(src: &mut Src, max_len: usize, decimals: usize) -> String {
     };
     let mut s = String::new();
     for i in 0..nint {
-        let c = if i == 0 && nint > 1 { src.pick_char("123456789") } else { src.pick_char("0123456789") };
+        let c = if i == 0 && nint > 1 {
+            src.pick_char("123456789")
+        } else {
+            src.pick_char("0123456789")
+        };
         s.push(c);
     }
     s.push(',');
@@ -291,7 +365,11 @@ fn gen_line(src: &mut Src, cls: Cls, min: usize, max: usize, no_slash_start: boo
 
 impl G {
     pub fn generate(&self, src: &mut Src) -> GenOut {
-        let mut out = GenOut { text: String::new(), comps: Vec::new(), spans: Vec::new() };
+        let mut out = GenOut {
+            text: String::new(),
+            comps: Vec::new(),
+            spans: Vec::new(),
+        };
         let mut ccy: Option<String> = None;
         self.gen_into(src, &mut out, &mut ccy, false);
         out
@@ -299,7 +377,9 @@ impl G {
 
     pub fn label(&self) -> Option<String> {
         Some(match self {
-            G::Lit(_) | G::Nl | G::Opt(_) | G::Seq(_) | G::Alt(_) | G::NoSlashEdges(_) => return None,
+            G::Lit(_) | G::Nl | G::Opt(_) | G::Seq(_) | G::Alt(_) | G::NoSlashEdges(_) => {
+                return None;
+            }
             G::Run { cls, min, max } => format!("Run{:?}{}-{}", cls, min, max),
             G::Uint { max, .. } => format!("Uint{}", max),
             G::Code { .. } => "Code".into(),
@@ -320,13 +400,20 @@ impl G {
             G::FundsCode => "FundsCode".into(),
             G::RefNoDslash { .. } => "Ref".into(),
             G::PermOnly(_) => return None,
+            G::Join(_) => "Join".into(),
             G::Days2 => "Days2".into(),
             G::AlphaStartRun { .. } => "AlphaStartRun".into(),
             G::IndexTotal => "IndexTotal".into(),
         })
     }
 
-    fn gen_into(&self, src: &mut Src, out: &mut GenOut, ccy: &mut Option<String>, slash_safe: bool) {
+    fn gen_into(
+        &self,
+        src: &mut Src,
+        out: &mut GenOut,
+        ccy: &mut Option<String>,
+        slash_safe: bool,
+    ) {
         let start = out.text.len();
         self.gen_inner(src, out, ccy, slash_safe);
         if let Some(l) = self.label() {
@@ -336,7 +423,13 @@ impl G {
         }
     }
 
-    fn gen_inner(&self, src: &mut Src, out: &mut GenOut, ccy: &mut Option<String>, slash_safe: bool) {
+    fn gen_inner(
+        &self,
+        src: &mut Src,
+        out: &mut GenOut,
+        ccy: &mut Option<String>,
+        slash_safe: bool,
+    ) {
         match self {
             G::Lit(s) => out.text.push_str(s),
             G::Run { cls, min, max } => {
@@ -393,6 +486,17 @@ impl G {
                 v[i].gen_into(src, out, ccy, slash_safe);
             }
             G::PermOnly(_) => {}
+            G::Join(v) => {
+                let start = out.text.len();
+                let ncomp = out.comps.len();
+                let nspans = out.spans.len();
+                for g in v {
+                    g.gen_into(src, out, ccy, slash_safe);
+                }
+                out.comps.truncate(ncomp);
+                out.spans.truncate(nspans);
+                out.comps.push(Comp::Text(out.text[start..].to_string()));
+            }
             G::AlphaStartRun { max } => {
                 let mut l = gen_line(src, Cls::X, 1, *max, true);
                 let c = src.pick_char("ABCDEFGHIJKLMNOPQRSTUVWXYZ");
@@ -421,13 +525,23 @@ impl G {
                     1 => total,
                     _ => 1 + src.below(total),
                 };
-                let (a, b) = if src.flip() { (format!("{index}"), format!("{total}")) } else { (format!("{:05}", index), format!("{:05}", total)) };
+                let (a, b) = if src.flip() {
+                    (format!("{index}"), format!("{total}"))
+                } else {
+                    (format!("{:05}", index), format!("{:05}", total))
+                };
                 out.text.push_str(&format!("{a}/{b}"));
                 out.comps.push(Comp::Num(a));
                 out.comps.push(Comp::Num(b));
             }
             G::Nl => out.text.push('\n'),
-            G::Lines { min, max, width, cls, first_no_slash } => {
+            G::Lines {
+                min,
+                max,
+                width,
+                cls,
+                first_no_slash,
+            } => {
                 let n = src.len_biased(*min, *max);
                 for i in 0..n {
                     if i > 0 {
@@ -470,7 +584,11 @@ impl G {
                     1 => 14,
                     _ => src.below(15),
                 };
-                let m = if h == 14 { 0 } else { *src.pick(&[0usize, 30, 45, 59, 15]) };
+                let m = if h == 14 {
+                    0
+                } else {
+                    *src.pick(&[0usize, 30, 45, 59, 15])
+                };
                 let s = format!("{:02}{:02}", h, m);
                 out.text.push_str(&s);
                 out.comps.push(Comp::Text(s));
@@ -485,7 +603,11 @@ impl G {
                 out.comps.push(Comp::Text(c.clone()));
                 *ccy = Some(c);
             }
-            G::Amount { max_len, with_ccy, kind } => {
+            G::Amount {
+                max_len,
+                with_ccy,
+                kind,
+            } => {
                 let dec = if *with_ccy {
                     ccy.as_deref().and_then(refs::minor_units).unwrap_or(2) as usize
                 } else {
@@ -510,7 +632,7 @@ impl G {
                 out.comps.push(Comp::Text(b));
             }
             G::SlashRun { min, max } => {
-                let l = gen_line(src, Cls::X, *min, *max, true);
+                let l = gen_line(src, Cls::X, *min, *max, true).replace('/', "S");
                 out.text.push('/');
                 out.text.push_str(&l);
                 out.comps.push(Comp::Slashed(l));
@@ -523,7 +645,8 @@ impl G {
                     s.push(*src.pick(&['C', 'D']));
                     s.push('/');
                 }
-                let l = gen_line(src, Cls::X, 1, if with_code { 32 } else { 34 }, true).replace('/', "S");
+                let l = gen_line(src, Cls::X, 1, if with_code { 32 } else { 34 }, true)
+                    .replace('/', "S");
                 s.push_str(&l);
                 out.text.push_str(&s);
                 out.comps.push(Comp::Slashed(s[1..].to_string()));
@@ -583,7 +706,11 @@ impl G {
     /// (matched, furthest failure position, label of what failed there)
     pub fn matches_why(&self, s: &str, mode: Mode) -> (bool, usize, String) {
         let cs: Vec<char> = s.chars().collect();
-        let mut st = MState { ccy: None, far_pos: 0, far_label: String::new() };
+        let mut st = MState {
+            ccy: None,
+            far_pos: 0,
+            far_label: String::new(),
+        };
         let ok = self.m(&cs, 0, mode, &mut st, &mut |p, st2| {
             if p == cs.len() {
                 true
@@ -600,7 +727,9 @@ impl G {
         if s.chars().any(|c| !c.is_ascii()) {
             return "nonascii".into();
         }
-        if s.chars().any(|c| c.is_ascii_control() && c != '\n' && c != '\r') {
+        if s.chars()
+            .any(|c| c.is_ascii_control() && c != '\n' && c != '\r')
+        {
             return "control-char".into();
         }
         let t = s.replace("\r\n", "\n");
@@ -614,15 +743,29 @@ impl G {
             return "blank-line".into();
         }
         let (ok, _pos, label) = self.matches_why(&t, Mode::Permissive);
-        if ok { "none".into() } else { format!("at-{label}") }
+        if ok {
+            "none".into()
+        } else {
+            format!("at-{label}")
+        }
     }
 
     /// Two-sided verdict for a candidate content.
     pub fn verdict(&self, s: &str) -> Verdict {
-        if s.chars().any(|c| !c.is_ascii() || (c.is_ascii_control() && c != '\n' && c != '\r')) {
+        if s.chars()
+            .any(|c| !c.is_ascii() || (c.is_ascii_control() && c != '\n' && c != '\r'))
+        {
             return Verdict::MustReject;
         }
-        let s = s.replace("\r\n", "\n");
+        // a lone CR is a control character like any other
+        if s.replace("\r\n", "").contains('\r') {
+            return Verdict::MustReject;
+        }
+        // CRLF inside a content handed directly to a field parser: the message parser hands LF line
+        // ends to field parsers, what a field parser should do with CRLF itself is documented nowhere
+        if s.contains("\r\n") {
+            return Verdict::Undetermined;
+        }
         if self.matches(&s, Mode::Strict) {
             Verdict::MustAccept
         } else if !self.matches(&s, Mode::Permissive) {
@@ -632,7 +775,14 @@ impl G {
         }
     }
 
-    fn m(&self, cs: &[char], pos: usize, mode: Mode, st: &mut MState, k: &mut dyn FnMut(usize, &mut MState) -> bool) -> bool {
+    fn m(
+        &self,
+        cs: &[char],
+        pos: usize,
+        mode: Mode,
+        st: &mut MState,
+        k: &mut dyn FnMut(usize, &mut MState) -> bool,
+    ) -> bool {
         let r = self.m_inner(cs, pos, mode, st, k);
         if !r {
             match self {
@@ -649,16 +799,31 @@ impl G {
         r
     }
 
-    fn m_inner(&self, cs: &[char], pos: usize, mode: Mode, st: &mut MState, k: &mut dyn FnMut(usize, &mut MState) -> bool) -> bool {
+    fn m_inner(
+        &self,
+        cs: &[char],
+        pos: usize,
+        mode: Mode,
+        st: &mut MState,
+        k: &mut dyn FnMut(usize, &mut MState) -> bool,
+    ) -> bool {
         match self {
             G::Lit(l) => {
                 let lc: Vec<char> = l.chars().collect();
-                if cs.len() >= pos + lc.len() && cs[pos..pos + lc.len()] == lc[..] { k(pos + lc.len(), st) } else { false }
+                if cs.len() >= pos + lc.len() && cs[pos..pos + lc.len()] == lc[..] {
+                    k(pos + lc.len(), st)
+                } else {
+                    false
+                }
             }
             G::Run { cls, min, max } => {
                 // longest first
                 let mut n = 0;
-                while n < *max && pos + n < cs.len() && cs[pos + n] != '\n' && ok_char(*cls, cs[pos + n], mode) {
+                while n < *max
+                    && pos + n < cs.len()
+                    && cs[pos + n] != '\n'
+                    && ok_char(*cls, cs[pos + n], mode)
+                {
                     n += 1;
                 }
                 loop {
@@ -676,11 +841,19 @@ impl G {
                     n -= 1;
                 }
             }
-            G::Uint { min, max } => G::Run { cls: Cls::N, min: *min, max: *max }.m(cs, pos, mode, st, k),
+            G::Uint { min, max } => G::Run {
+                cls: Cls::N,
+                min: *min,
+                max: *max,
+            }
+            .m(cs, pos, mode, st, k),
             G::Code { strict, perm } => {
                 for c in strict {
                     let lc: Vec<char> = c.chars().collect();
-                    if cs.len() >= pos + lc.len() && cs[pos..pos + lc.len()] == lc[..] && k(pos + lc.len(), st) {
+                    if cs.len() >= pos + lc.len()
+                        && cs[pos..pos + lc.len()] == lc[..]
+                        && k(pos + lc.len(), st)
+                    {
                         return true;
                     }
                 }
@@ -707,10 +880,34 @@ impl G {
                 false
             }
             G::Nl => {
-                if pos < cs.len() && cs[pos] == '\n' { k(pos + 1, st) } else { false }
+                if pos < cs.len() && cs[pos] == '\n' {
+                    k(pos + 1, st)
+                } else {
+                    false
+                }
             }
-            G::Lines { min, max, width, cls, first_no_slash } => m_lines(cs, pos, mode, st, k, 0, *min, *max, *width, *cls, *first_no_slash),
-            G::NumLines { min, max, width } => m_numlines(cs, pos, mode, st, k, 0, *min, *max, *width),
+            G::Lines {
+                min,
+                max,
+                width,
+                cls,
+                first_no_slash,
+            } => m_lines(
+                cs,
+                pos,
+                mode,
+                st,
+                k,
+                0,
+                *min,
+                *max,
+                *width,
+                *cls,
+                *first_no_slash,
+            ),
+            G::NumLines { min, max, width } => {
+                m_numlines(cs, pos, mode, st, k, 0, *min, *max, *width)
+            }
             G::Date6 => {
                 if pos + 6 > cs.len() {
                     return false;
@@ -727,10 +924,18 @@ impl G {
                     return false;
                 }
                 let s: String = cs[pos..pos + 4].iter().collect();
-                if refs::valid_hhmm(&s) { k(pos + 4, st) } else { false }
+                if refs::valid_hhmm(&s) {
+                    k(pos + 4, st)
+                } else {
+                    false
+                }
             }
             G::Sign => {
-                if pos < cs.len() && (cs[pos] == '+' || cs[pos] == '-') { k(pos + 1, st) } else { false }
+                if pos < cs.len() && (cs[pos] == '+' || cs[pos] == '-') {
+                    k(pos + 1, st)
+                } else {
+                    false
+                }
             }
             G::Offset4 => {
                 if pos + 4 > cs.len() || !cs[pos..pos + 4].iter().all(|c| c.is_ascii_digit()) {
@@ -766,13 +971,28 @@ impl G {
                 r
             }
             G::PermOnly(g) => {
-                if mode == Mode::Permissive { g.m(cs, pos, mode, st, k) } else { false }
+                if mode == Mode::Permissive {
+                    g.m(cs, pos, mode, st, k)
+                } else {
+                    false
+                }
             }
+            G::Join(v) => m_seq(v, 0, cs, pos, mode, st, k),
             G::AlphaStartRun { max } => {
-                if pos < cs.len() && ok_char(Cls::A, cs[pos], mode) { G::Run { cls: Cls::X, min: 1, max: *max }.m(cs, pos, mode, st, k) } else { false }
+                if pos < cs.len() && ok_char(Cls::A, cs[pos], mode) {
+                    G::Run {
+                        cls: Cls::X,
+                        min: 1,
+                        max: *max,
+                    }
+                    .m(cs, pos, mode, st, k)
+                } else {
+                    false
+                }
             }
             G::Days2 => {
-                if pos + 2 > cs.len() || !cs[pos].is_ascii_digit() || !cs[pos + 1].is_ascii_digit() {
+                if pos + 2 > cs.len() || !cs[pos].is_ascii_digit() || !cs[pos + 1].is_ascii_digit()
+                {
                     return false;
                 }
                 if mode == Mode::Strict && cs[pos] == '0' && cs[pos + 1] == '0' {
@@ -782,7 +1002,12 @@ impl G {
             }
             G::IndexTotal => {
                 let start = pos;
-                seq(vec![G::Uint { min: 1, max: 5 }, lit("/"), G::Uint { min: 1, max: 5 }]).m(cs, pos, mode, st, &mut |p, st2| {
+                seq(vec![
+                    G::Uint { min: 1, max: 5 },
+                    lit("/"),
+                    G::Uint { min: 1, max: 5 },
+                ])
+                .m(cs, pos, mode, st, &mut |p, st2| {
                     let t: String = cs[start..p].iter().collect();
                     let mut it = t.split('/');
                     let a: u64 = it.next().unwrap().parse().unwrap_or(0);
@@ -793,9 +1018,18 @@ impl G {
                     k(p, st2)
                 })
             }
-            G::Amount { max_len, with_ccy, kind } => {
+            G::Amount {
+                max_len,
+                with_ccy,
+                kind,
+            } => {
                 let mut n = 0;
-                while pos + n < cs.len() && n < *max_len && (cs[pos + n].is_ascii_digit() || cs[pos + n] == ',' || (mode == Mode::Permissive && cs[pos + n] == '.')) {
+                while pos + n < cs.len()
+                    && n < *max_len
+                    && (cs[pos + n].is_ascii_digit()
+                        || cs[pos + n] == ','
+                        || (mode == Mode::Permissive && cs[pos + n] == '.'))
+                {
                     n += 1;
                 }
                 loop {
@@ -803,7 +1037,10 @@ impl G {
                         return false;
                     }
                     let s: String = cs[pos..pos + n].iter().collect();
-                    if amount_ok(&s, mode, if *with_ccy { st.ccy.as_deref() } else { None }) && amount_kind_ok(&s, mode, *kind) && k(pos + n, st) {
+                    if amount_ok(&s, mode, if *with_ccy { st.ccy.as_deref() } else { None })
+                        && amount_kind_ok(&s, mode, *kind)
+                        && k(pos + n, st)
+                    {
                         return true;
                     }
                     n -= 1;
@@ -822,7 +1059,19 @@ impl G {
             }
             G::SlashRun { min, max } => {
                 if pos < cs.len() && cs[pos] == '/' {
-                    G::Run { cls: Cls::X, min: *min, max: *max }.m(cs, pos + 1, mode, st, k)
+                    let start = pos + 1;
+                    G::Run {
+                        cls: Cls::X,
+                        min: *min,
+                        max: *max,
+                    }
+                    .m(cs, pos + 1, mode, st, &mut |p, st2| {
+                        // a further slash inside is only covered by the permissive reading
+                        if mode == Mode::Strict && cs[start..p].contains(&'/') {
+                            return false;
+                        }
+                        k(p, st2)
+                    })
                 } else {
                     false
                 }
@@ -841,10 +1090,24 @@ impl G {
                     Mode::Strict => {
                         let body = &line[1..];
                         let b: Vec<char> = body.chars().collect();
-                        let x_ok = |t: &[char]| !t.is_empty() && t.len() <= 34 && t.iter().all(|c| Cls::X.strict(*c) && *c != '/') && t[0] != ' ' && t[t.len() - 1] != ' ';
-                        if b.len() >= 3 && b[0].is_ascii_uppercase() && b[1] == '/' { x_ok(&b[2..]) } else { x_ok(&b) }
+                        let x_ok = |t: &[char]| {
+                            !t.is_empty()
+                                && t.len() <= 34
+                                && t.iter().all(|c| Cls::X.strict(*c) && *c != '/')
+                                && t[0] != ' '
+                                && t[t.len() - 1] != ' '
+                        };
+                        if b.len() >= 3 && b[0].is_ascii_uppercase() && b[1] == '/' {
+                            x_ok(&b[2..])
+                        } else {
+                            x_ok(&b)
+                        }
                     }
-                    Mode::Permissive => line.len() >= 2 && line.len() <= 37 && line.chars().all(|c| (' '..='~').contains(&c)),
+                    Mode::Permissive => {
+                        line.len() >= 2
+                            && line.len() <= 37
+                            && line.chars().all(|c| (' '..='~').contains(&c))
+                    }
                 };
                 if ok { k(pos + n, st) } else { false }
             }
@@ -873,14 +1136,25 @@ impl G {
                 if ok { k(pos + 4, st) } else { false }
             }
             G::FundsCode => {
-                if pos < cs.len() && ok_char(Cls::A, cs[pos], mode) { k(pos + 1, st) } else { false }
+                if pos < cs.len() && ok_char(Cls::A, cs[pos], mode) {
+                    k(pos + 1, st)
+                } else {
+                    false
+                }
             }
             G::RefNoDslash { max } => {
                 let start = pos;
                 let min = if mode == Mode::Strict { 1 } else { 0 };
-                G::Run { cls: Cls::X, min, max: *max }.m(cs, pos, mode, st, &mut |p, st2| {
+                G::Run {
+                    cls: Cls::X,
+                    min,
+                    max: *max,
+                }
+                .m(cs, pos, mode, st, &mut |p, st2| {
                     let t: String = cs[start..p].iter().collect();
-                    if t.contains("//") || (mode == Mode::Strict && (t.starts_with('/') || t.ends_with('/'))) {
+                    if t.contains("//")
+                        || (mode == Mode::Strict && (t.starts_with('/') || t.ends_with('/')))
+                    {
                         return false;
                     }
                     k(p, st2)
@@ -891,9 +1165,12 @@ impl G {
                 if n == 0 || n > *max {
                     return false;
                 }
-                let ok = cs[pos..].iter().all(|c| *c == '\n' || match mode {
-                    Mode::Strict => Cls::Z.strict(*c),
-                    Mode::Permissive => Cls::Z.permissive(*c),
+                let ok = cs[pos..].iter().all(|c| {
+                    *c == '\n'
+                        || match mode {
+                            Mode::Strict => Cls::Z.strict(*c),
+                            Mode::Permissive => Cls::Z.permissive(*c),
+                        }
                 });
                 if ok { k(cs.len(), st) } else { false }
             }
@@ -923,15 +1200,37 @@ fn ok_char(cls: Cls, c: char, mode: Mode) -> bool {
     }
 }
 
-fn m_seq(v: &[G], i: usize, cs: &[char], pos: usize, mode: Mode, st: &mut MState, k: &mut dyn FnMut(usize, &mut MState) -> bool) -> bool {
+fn m_seq(
+    v: &[G],
+    i: usize,
+    cs: &[char],
+    pos: usize,
+    mode: Mode,
+    st: &mut MState,
+    k: &mut dyn FnMut(usize, &mut MState) -> bool,
+) -> bool {
     if i == v.len() {
         return k(pos, st);
     }
-    v[i].m(cs, pos, mode, st, &mut |p, st2| m_seq(v, i + 1, cs, p, mode, st2, k))
+    v[i].m(cs, pos, mode, st, &mut |p, st2| {
+        m_seq(v, i + 1, cs, p, mode, st2, k)
+    })
 }
 
 #[allow(clippy::too_many_arguments)]
-fn m_lines(cs: &[char], pos: usize, mode: Mode, st: &mut MState, k: &mut dyn FnMut(usize, &mut MState) -> bool, done: usize, min: usize, max: usize, width: usize, cls: Cls, first_no_slash: bool) -> bool {
+fn m_lines(
+    cs: &[char],
+    pos: usize,
+    mode: Mode,
+    st: &mut MState,
+    k: &mut dyn FnMut(usize, &mut MState) -> bool,
+    done: usize,
+    min: usize,
+    max: usize,
+    width: usize,
+    cls: Cls,
+    first_no_slash: bool,
+) -> bool {
     // match one line at pos
     if done >= max {
         st.note(pos, "Lines-too-many");
@@ -965,14 +1264,39 @@ fn m_lines(cs: &[char], pos: usize, mode: Mode, st: &mut MState, k: &mut dyn FnM
     let end = pos + n;
     let done = done + 1;
     // continue with another line
-    if end < cs.len() && cs[end] == '\n' && m_lines(cs, end + 1, mode, st, k, done, min, max, width, cls, first_no_slash) {
+    if end < cs.len()
+        && cs[end] == '\n'
+        && m_lines(
+            cs,
+            end + 1,
+            mode,
+            st,
+            k,
+            done,
+            min,
+            max,
+            width,
+            cls,
+            first_no_slash,
+        )
+    {
         return true;
     }
     if done >= min { k(end, st) } else { false }
 }
 
 #[allow(clippy::too_many_arguments)]
-fn m_numlines(cs: &[char], pos: usize, mode: Mode, st: &mut MState, k: &mut dyn FnMut(usize, &mut MState) -> bool, done: usize, min: usize, max: usize, width: usize) -> bool {
+fn m_numlines(
+    cs: &[char],
+    pos: usize,
+    mode: Mode,
+    st: &mut MState,
+    k: &mut dyn FnMut(usize, &mut MState) -> bool,
+    done: usize,
+    min: usize,
+    max: usize,
+    width: usize,
+) -> bool {
     if done >= max {
         st.note(pos, "NumLines-too-many");
         return false;
@@ -1007,7 +1331,10 @@ fn m_numlines(cs: &[char], pos: usize, mode: Mode, st: &mut MState, k: &mut dyn 
     }
     let end = pos + n;
     let done = done + 1;
-    if end < cs.len() && cs[end] == '\n' && m_numlines(cs, end + 1, mode, st, k, done, min, max, width) {
+    if end < cs.len()
+        && cs[end] == '\n'
+        && m_numlines(cs, end + 1, mode, st, k, done, min, max, width)
+    {
         return true;
     }
     if done >= min { k(end, st) } else { false }
@@ -1090,7 +1417,12 @@ pub fn bic_ok(s: &str, mode: Mode) -> bool {
         return false;
     }
     match mode {
-        Mode::Strict => b[..6].iter().all(|c| c.is_ascii_uppercase()) && b[6..].iter().all(|c| c.is_ascii_uppercase() || c.is_ascii_digit()),
+        Mode::Strict => {
+            b[..6].iter().all(|c| c.is_ascii_uppercase())
+                && b[6..]
+                    .iter()
+                    .all(|c| c.is_ascii_uppercase() || c.is_ascii_digit())
+        }
         Mode::Permissive => b.iter().all(|c| c.is_ascii_alphanumeric()),
     }
 }
@@ -1115,10 +1447,22 @@ fn party_then(rest: G) -> G {
     seq(vec![opt(seq(vec![G::PartyId, G::Nl])), rest])
 }
 fn acct_then(rest: G) -> G {
-    seq(vec![opt(seq(vec![G::SlashRun { min: 1, max: 34 }, G::Nl])), rest])
+    seq(vec![
+        opt(seq(vec![G::SlashRun { min: 1, max: 34 }, G::Nl])),
+        rest,
+    ])
 }
 fn balance() -> G {
-    seq(vec![code(&["C", "D"]), G::Date6, G::Ccy, G::Amount { max_len: 15, with_ccy: true, kind: AmtKind::Positive }])
+    seq(vec![
+        code(&["C", "D"]),
+        G::Date6,
+        G::Ccy,
+        G::Amount {
+            max_len: 15,
+            with_ccy: true,
+            kind: AmtKind::Positive,
+        },
+    ])
 }
 fn party_b() -> G {
     // [/1!a][/34x] + [35x] : at least one of the two
@@ -1132,103 +1476,405 @@ fn party_b() -> G {
 impl G {
     #[allow(non_snake_case)]
     fn NoLeadSlash35() -> G {
-        G::Lines { min: 1, max: 1, width: 35, cls: Cls::X, first_no_slash: true }
+        G::Lines {
+            min: 1,
+            max: 1,
+            width: 35,
+            cls: Cls::X,
+            first_no_slash: true,
+        }
     }
 }
 
 pub fn field_specs() -> Vec<FieldSpec> {
     use Cls::*;
-    let fs = |ty, tag, doc, g| FieldSpec { ty, tag, doc, g, amount: false, date: false };
-    let am = |ty, tag, doc, g| FieldSpec { ty, tag, doc, g, amount: true, date: false };
-    let dt = |ty, tag, doc, g| FieldSpec { ty, tag, doc, g, amount: false, date: true };
-    let amdt = |ty, tag, doc, g| FieldSpec { ty, tag, doc, g, amount: true, date: true };
-    let amt15 = || G::Amount { max_len: 15, with_ccy: true, kind: AmtKind::Positive };
+    let fs = |ty, tag, doc, g| FieldSpec {
+        ty,
+        tag,
+        doc,
+        g,
+        amount: false,
+        date: false,
+    };
+    let am = |ty, tag, doc, g| FieldSpec {
+        ty,
+        tag,
+        doc,
+        g,
+        amount: true,
+        date: false,
+    };
+    let dt = |ty, tag, doc, g| FieldSpec {
+        ty,
+        tag,
+        doc,
+        g,
+        amount: false,
+        date: true,
+    };
+    let amdt = |ty, tag, doc, g| FieldSpec {
+        ty,
+        tag,
+        doc,
+        g,
+        amount: true,
+        date: true,
+    };
+    let amt15 = || G::Amount {
+        max_len: 15,
+        with_ccy: true,
+        kind: AmtKind::Positive,
+    };
     vec![
-        dt("Field11R", "11R", "3!n6!n[4!n][6!n]", seq(vec![fix(N, 3), G::Date6, opt(seq(vec![fix(N, 4), opt(fix(N, 6))]))])),
-        dt("Field11S", "11S", "3!n6!n[4!n][6!n]", seq(vec![fix(N, 3), G::Date6, opt(seq(vec![fix(N, 4), opt(fix(N, 6))]))])),
+        dt(
+            "Field11R",
+            "11R",
+            "3!n6!n[4!n][6!n]",
+            seq(vec![
+                fix(N, 3),
+                G::Date6,
+                opt(seq(vec![fix(N, 4), opt(fix(N, 6))])),
+            ]),
+        ),
+        dt(
+            "Field11S",
+            "11S",
+            "3!n6!n[4!n][6!n]",
+            seq(vec![
+                fix(N, 3),
+                G::Date6,
+                opt(seq(vec![fix(N, 4), opt(fix(N, 6))])),
+            ]),
+        ),
         dt("Field11", "11", "3!n6!n", seq(vec![fix(N, 3), G::Date6])),
         fs("Field12", "12", "3!n", fix(N, 3)),
-        dt("Field13C", "13C", "/8c/4!n1!x4!n", seq(vec![lit("/"), code_or(&["SNDTIME", "CLSTIME", "RNCTIME"], upto(C, 8)), lit("/"), G::Time4, G::Sign, G::Offset4])),
-        dt("Field13D", "13D", "6!n4!n1!x4!n", seq(vec![G::Date6, G::Time4, G::Sign, G::Offset4])),
-        am("Field19", "19", "17d", G::Amount { max_len: 17, with_ccy: false, kind: AmtKind::Any }),
-        fs("Field20", "20", "16x", G::NoSlashEdges(Box::new(upto(X, 16)))),
-        fs("Field21NoOption", "21", "16x", G::NoSlashEdges(Box::new(upto(X, 16)))),
-        fs("Field21C", "21C", "35x", G::NoSlashEdges(Box::new(upto(X, 35)))),
-        fs("Field21D", "21D", "35x", G::NoSlashEdges(Box::new(upto(X, 35)))),
-        fs("Field21E", "21E", "35x", G::NoSlashEdges(Box::new(upto(X, 35)))),
-        fs("Field21F", "21F", "16x", G::NoSlashEdges(Box::new(upto(X, 16)))),
-        fs("Field21R", "21R", "16x", G::NoSlashEdges(Box::new(upto(X, 16)))),
-        fs("Field23", "23", "3!a[2!n]11x", alt(vec![
-            seq(vec![code(&["NOT"]), G::Days2, upto(X, 11)]),
-            seq(vec![code(&["BAS", "CAL", "COM", "CUR", "DEP", "PRI"]), G::AlphaStartRun { max: 11 }]),
-            G::PermOnly(Box::new(seq(vec![fix(A, 3), opt(fix(N, 2)), upto(X, 11)]))),
-        ])),
-        fs("Field23B", "23B", "4!c", code_or(&["CRED", "CRTS", "SPAY", "SPRI", "SSTD"], fix(C, 4))),
-        fs("Field23E", "23E", "4!c[/35x]", seq(vec![fix(A, 4), opt(seq(vec![lit("/"), upto(X, 35)]))])),
+        dt(
+            "Field13C",
+            "13C",
+            "/8c/4!n1!x4!n",
+            seq(vec![
+                lit("/"),
+                code_or(&["SNDTIME", "CLSTIME", "RNCTIME"], upto(C, 8)),
+                lit("/"),
+                G::Time4,
+                G::Sign,
+                G::Offset4,
+            ]),
+        ),
+        dt(
+            "Field13D",
+            "13D",
+            "6!n4!n1!x4!n",
+            seq(vec![G::Date6, G::Time4, G::Sign, G::Offset4]),
+        ),
+        am(
+            "Field19",
+            "19",
+            "17d",
+            G::Amount {
+                max_len: 17,
+                with_ccy: false,
+                kind: AmtKind::Any,
+            },
+        ),
+        fs(
+            "Field20",
+            "20",
+            "16x",
+            G::NoSlashEdges(Box::new(upto(X, 16))),
+        ),
+        fs(
+            "Field21NoOption",
+            "21",
+            "16x",
+            G::NoSlashEdges(Box::new(upto(X, 16))),
+        ),
+        fs(
+            "Field21C",
+            "21C",
+            "35x",
+            G::NoSlashEdges(Box::new(upto(X, 35))),
+        ),
+        fs(
+            "Field21D",
+            "21D",
+            "35x",
+            G::NoSlashEdges(Box::new(upto(X, 35))),
+        ),
+        fs(
+            "Field21E",
+            "21E",
+            "35x",
+            G::NoSlashEdges(Box::new(upto(X, 35))),
+        ),
+        fs(
+            "Field21F",
+            "21F",
+            "16x",
+            G::NoSlashEdges(Box::new(upto(X, 16))),
+        ),
+        fs(
+            "Field21R",
+            "21R",
+            "16x",
+            G::NoSlashEdges(Box::new(upto(X, 16))),
+        ),
+        fs(
+            "Field23",
+            "23",
+            "3!a[2!n]11x",
+            alt(vec![
+                seq(vec![code(&["NOT"]), G::Days2, upto(X, 11)]),
+                seq(vec![
+                    code(&["BAS", "CAL", "COM", "CUR", "DEP", "PRI"]),
+                    G::AlphaStartRun { max: 11 },
+                ]),
+                G::PermOnly(Box::new(seq(vec![fix(A, 3), opt(fix(N, 2)), upto(X, 11)]))),
+            ]),
+        ),
+        fs(
+            "Field23B",
+            "23B",
+            "4!c",
+            code_or(&["CRED", "CRTS", "SPAY", "SPRI", "SSTD"], fix(C, 4)),
+        ),
+        fs(
+            "Field23E",
+            "23E",
+            "4!c[/35x]",
+            seq(vec![fix(A, 4), opt(seq(vec![lit("/"), upto(X, 35)]))]),
+        ),
         fs("Field25NoOption", "25", "35x", G::NoLeadSlash35()),
         fs("Field25A", "25A", "/34x", G::SlashRun { min: 1, max: 34 }),
-        fs("Field25P", "25P", "35x + 4!a2!a2!c[3!c]", seq(vec![upto(X, 35), G::Nl, G::Bic])),
+        fs(
+            "Field25P",
+            "25P",
+            "35x + 4!a2!a2!c[3!c]",
+            seq(vec![upto(X, 35), G::Nl, G::Bic]),
+        ),
         fs("Field26T", "26T", "3!c", fix(C, 3)),
-        fs("Field28", "28", "5n[/2n]", seq(vec![G::Uint { min: 1, max: 5 }, opt(seq(vec![lit("/"), G::Uint { min: 1, max: 2 }]))])),
-        fs("Field28C", "28C", "5n[/5n]", seq(vec![G::Uint { min: 1, max: 5 }, opt(seq(vec![lit("/"), G::Uint { min: 1, max: 5 }]))])),
+        fs(
+            "Field28",
+            "28",
+            "5n[/2n]",
+            seq(vec![
+                G::Uint { min: 1, max: 5 },
+                opt(seq(vec![lit("/"), G::Uint { min: 1, max: 2 }])),
+            ]),
+        ),
+        fs(
+            "Field28C",
+            "28C",
+            "5n[/5n]",
+            seq(vec![
+                G::Uint { min: 1, max: 5 },
+                opt(seq(vec![lit("/"), G::Uint { min: 1, max: 5 }])),
+            ]),
+        ),
         fs("Field28D", "28D", "5n/5n", G::IndexTotal),
         dt("Field30", "30", "6!n", G::Date6),
-        amdt("Field32A", "32A", "6!n3!a15d", seq(vec![G::Date6, G::Ccy, amt15()])),
+        amdt(
+            "Field32A",
+            "32A",
+            "6!n3!a15d",
+            seq(vec![G::Date6, G::Ccy, amt15()]),
+        ),
         am("Field32B", "32B", "3!a15d", seq(vec![G::Ccy, amt15()])),
-        amdt("Field32C", "32C", "6!n3!a15d", seq(vec![G::Date6, G::Ccy, amt15()])),
-        amdt("Field32D", "32D", "6!n3!a15d", seq(vec![G::Date6, G::Ccy, amt15()])),
+        amdt(
+            "Field32C",
+            "32C",
+            "6!n3!a15d",
+            seq(vec![G::Date6, G::Ccy, amt15()]),
+        ),
+        amdt(
+            "Field32D",
+            "32D",
+            "6!n3!a15d",
+            seq(vec![G::Date6, G::Ccy, amt15()]),
+        ),
         am("Field33B", "33B", "3!a15d", seq(vec![G::Ccy, amt15()])),
-        am("Field34F", "34F", "3!a[1!a]15d", seq(vec![G::Ccy, opt(code(&["D", "C"])), G::Amount { max_len: 15, with_ccy: true, kind: AmtKind::Positive }])),
-        am("Field36", "36", "12d", G::Amount { max_len: 12, with_ccy: false, kind: AmtKind::Rate36 }),
-        am("Field37H", "37H", "1!a[N]12d", seq(vec![code(&["C", "D"]), opt(G::Flagged("N")), G::Amount { max_len: 12, with_ccy: false, kind: AmtKind::Any }])),
+        am(
+            "Field34F",
+            "34F",
+            "3!a[1!a]15d",
+            seq(vec![
+                G::Ccy,
+                opt(code(&["D", "C"])),
+                G::Amount {
+                    max_len: 15,
+                    with_ccy: true,
+                    kind: AmtKind::Positive,
+                },
+            ]),
+        ),
+        am(
+            "Field36",
+            "36",
+            "12d",
+            G::Amount {
+                max_len: 12,
+                with_ccy: false,
+                kind: AmtKind::Rate36,
+            },
+        ),
+        am(
+            "Field37H",
+            "37H",
+            "1!a[N]12d",
+            seq(vec![
+                code(&["C", "D"]),
+                opt(G::Flagged("N")),
+                G::Amount {
+                    max_len: 12,
+                    with_ccy: false,
+                    kind: AmtKind::Any,
+                },
+            ]),
+        ),
         fs("Field50NoOption", "50", "4*35x", name_lines(4, 35)),
-        fs("Field50A", "50A", "[/34x]4*(1!n/33x)", acct_then(G::NumLines { min: 1, max: 4, width: 33 })),
-        fs("Field50F", "50F", "account + [/party_id] + [name/address] + BIC", seq(vec![G::NoLeadSlash35(), G::Nl, opt(seq(vec![G::SlashRun { min: 1, max: 34 }, G::Nl])), opt(seq(vec![name_lines(4, 35), G::Nl])), G::Bic])),
-        fs("Field50K", "50K", "[/34x]4*35x", acct_then(name_lines(4, 35))),
+        fs(
+            "Field50A",
+            "50A",
+            "[/34x]4*(1!n/33x)",
+            acct_then(G::NumLines {
+                min: 1,
+                max: 4,
+                width: 33,
+            }),
+        ),
+        fs(
+            "Field50F",
+            "50F",
+            "account + [/party_id] + [name/address] + BIC",
+            seq(vec![
+                G::NoLeadSlash35(),
+                G::Nl,
+                opt(seq(vec![G::SlashRun { min: 1, max: 34 }, G::Nl])),
+                opt(seq(vec![name_lines(4, 35), G::Nl])),
+                G::Bic,
+            ]),
+        ),
+        fs(
+            "Field50K",
+            "50K",
+            "[/34x]4*35x",
+            acct_then(name_lines(4, 35)),
+        ),
         fs("Field50C", "50C", "BIC", G::Bic),
         fs("Field50L", "50L", "35x", upto(X, 35)),
-        fs("Field50G", "50G", "/34x + BIC", seq(vec![G::SlashRun { min: 1, max: 34 }, G::Nl, G::Bic])),
-        fs("Field50H", "50H", "/34x + 4*35x", seq(vec![G::SlashRun { min: 1, max: 34 }, G::Nl, name_lines(4, 35)])),
+        fs(
+            "Field50G",
+            "50G",
+            "/34x + BIC",
+            seq(vec![G::SlashRun { min: 1, max: 34 }, G::Nl, G::Bic]),
+        ),
+        fs(
+            "Field50H",
+            "50H",
+            "/34x + 4*35x",
+            seq(vec![
+                G::SlashRun { min: 1, max: 34 },
+                G::Nl,
+                name_lines(4, 35),
+            ]),
+        ),
         fs("Field51A", "51A", "[/1!a][/34x] + BIC", party_then(G::Bic)),
         fs("Field52A", "52A", "[/1!a][/34x] + BIC", party_then(G::Bic)),
         fs("Field52B", "52B", "[/1!a][/34x] + [35x]", party_b()),
         fs("Field52C", "52C", "/34x", G::SlashRun { min: 1, max: 34 }),
-        fs("Field52D", "52D", "[/1!a][/34x] + 4*35x", party_then(name_lines(4, 35))),
+        fs(
+            "Field52D",
+            "52D",
+            "[/1!a][/34x] + 4*35x",
+            party_then(name_lines(4, 35)),
+        ),
         fs("Field53A", "53A", "[/1!a][/34x] + BIC", party_then(G::Bic)),
         fs("Field53B", "53B", "[/1!a][/34x] + [35x]", party_b()),
-        fs("Field53D", "53D", "[/1!a][/34x] + 4*35x", party_then(name_lines(4, 35))),
+        fs(
+            "Field53D",
+            "53D",
+            "[/1!a][/34x] + 4*35x",
+            party_then(name_lines(4, 35)),
+        ),
         fs("Field54A", "54A", "[/1!a][/34x] + BIC", party_then(G::Bic)),
         fs("Field54B", "54B", "[/1!a][/34x] + [35x]", party_b()),
-        fs("Field54D", "54D", "[/1!a][/34x] + 4*35x", party_then(name_lines(4, 35))),
+        fs(
+            "Field54D",
+            "54D",
+            "[/1!a][/34x] + 4*35x",
+            party_then(name_lines(4, 35)),
+        ),
         fs("Field55A", "55A", "[/1!a][/34x] + BIC", party_then(G::Bic)),
         fs("Field55B", "55B", "[/1!a][/34x] + [35x]", party_b()),
-        fs("Field55D", "55D", "[/1!a][/34x] + 4*35x", party_then(name_lines(4, 35))),
+        fs(
+            "Field55D",
+            "55D",
+            "[/1!a][/34x] + 4*35x",
+            party_then(name_lines(4, 35)),
+        ),
         fs("Field56A", "56A", "[/1!a][/34x] + BIC", party_then(G::Bic)),
         fs("Field56C", "56C", "/34x", G::SlashRun { min: 1, max: 34 }),
-        fs("Field56D", "56D", "[/1!a][/34x] + 4*35x", party_then(name_lines(4, 35))),
+        fs(
+            "Field56D",
+            "56D",
+            "[/1!a][/34x] + 4*35x",
+            party_then(name_lines(4, 35)),
+        ),
         fs("Field57A", "57A", "[/1!a][/34x] + BIC", party_then(G::Bic)),
         fs("Field57B", "57B", "[/1!a][/34x] + [35x]", party_b()),
         fs("Field57C", "57C", "/34x", G::SlashRun { min: 1, max: 34 }),
-        fs("Field57D", "57D", "[/1!a][/34x] + 4*35x", party_then(name_lines(4, 35))),
+        fs(
+            "Field57D",
+            "57D",
+            "[/1!a][/34x] + 4*35x",
+            party_then(name_lines(4, 35)),
+        ),
         fs("Field58A", "58A", "[/1!a][/34x] + BIC", party_then(G::Bic)),
-        fs("Field58D", "58D", "[/1!a][/34x] + 4*35x", party_then(name_lines(4, 35))),
-        fs("Field59F", "59F", "[/34x]4*(1!n/33x)", acct_then(G::NumLines { min: 1, max: 4, width: 33 })),
+        fs(
+            "Field58D",
+            "58D",
+            "[/1!a][/34x] + 4*35x",
+            party_then(name_lines(4, 35)),
+        ),
+        fs(
+            "Field59F",
+            "59F",
+            "[/34x]4*(1!n/33x)",
+            acct_then(G::NumLines {
+                min: 1,
+                max: 4,
+                width: 33,
+            }),
+        ),
         fs("Field59A", "59A", "[/34x] + BIC", acct_then(G::Bic)),
-        fs("Field59NoOption", "59", "[/34x]4*35x", acct_then(name_lines(4, 35))),
+        fs(
+            "Field59NoOption",
+            "59",
+            "[/34x]4*35x",
+            acct_then(name_lines(4, 35)),
+        ),
         amdt("Field60F", "60F", "1!a6!n3!a15d", balance()),
         amdt("Field60M", "60M", "1!a6!n3!a15d", balance()),
-        amdt("Field61", "61", "6!n[4!n]2a[1!a]15d1!a3!c[16x][//16x][34x]", seq(vec![
-            G::Date6,
-            opt(G::Mmdd),
-            code(&["C", "D", "RC", "RD"]),
-            opt(G::FundsCode),
-            G::Amount { max_len: 15, with_ccy: false, kind: AmtKind::Any },
-            code(&["S", "N", "F"]),
-            fix(C, 3),
-            G::RefNoDslash { max: 16 },
-            opt(seq(vec![lit("//"), upto(X, 16)])),
-            opt(seq(vec![G::Nl, upto(X, 34)])),
-        ])),
+        amdt(
+            "Field61",
+            "61",
+            "6!n[4!n]2a[1!a]15d1!a3!c[16x][//16x][34x]",
+            seq(vec![
+                G::Date6,
+                opt(G::Mmdd),
+                code(&["C", "D", "RC", "RD"]),
+                opt(G::FundsCode),
+                G::Amount {
+                    max_len: 15,
+                    with_ccy: false,
+                    kind: AmtKind::Any,
+                },
+                G::Join(vec![code(&["S", "N", "F"]), fix(C, 3)]),
+                G::RefNoDslash { max: 16 },
+                opt(seq(vec![lit("//"), G::RefNoDslash { max: 16 }])),
+                opt(seq(vec![G::Nl, G::RefNoDslash { max: 34 }])),
+            ]),
+        ),
         amdt("Field62F", "62F", "1!a6!n3!a15d", balance()),
         amdt("Field62M", "62M", "1!a6!n3!a15d", balance()),
         amdt("Field64", "64", "1!a6!n3!a15d", balance()),
@@ -1246,7 +1892,17 @@ pub fn field_specs() -> Vec<FieldSpec> {
         fs("Field77B", "77B", "3*35x", lines(3, 35)),
         fs("Field79", "79", "35*50x", lines(35, 50)),
         fs("Field86", "86", "6*65x", lines(6, 65)),
-        am("Field90D", "90D", "5n3!a15d", seq(vec![G::Uint { min: 1, max: 5 }, G::Ccy, amt15()])),
-        am("Field90C", "90C", "5n3!a15d", seq(vec![G::Uint { min: 1, max: 5 }, G::Ccy, amt15()])),
+        am(
+            "Field90D",
+            "90D",
+            "5n3!a15d",
+            seq(vec![G::Uint { min: 1, max: 5 }, G::Ccy, amt15()]),
+        ),
+        am(
+            "Field90C",
+            "90C",
+            "5n3!a15d",
+            seq(vec![G::Uint { min: 1, max: 5 }, G::Ccy, amt15()]),
+        ),
     ]
 }
